@@ -197,6 +197,9 @@ func (g *tmplGen) invalid() string {
 	case 9:
 		return pre + "{{" + g.ref()
 	case 10:
+		if g.rng.IntN(4) > 0 { // the runaway recursion costs ~0.2 s per export: one in four of these cases
+			return pre + "{{template \"nowhere\" .}}"
+		}
 		return "{{define \"r\"}}x{{template \"r\" .}}{{end}}" + pre + "{{template \"r\" .}}"
 	case 11:
 		return pre + "{{.Vector.Nope}}"
@@ -581,7 +584,7 @@ func runC19(r *Run) int {
 					st.reexported.Add(1)
 					checkExport(w, st, reps[e.l][rng.IntN(2)], vec, "en/ja", e.text)
 				}
-				if strings.Contains(text, "{{define") || strings.Contains(text, "{{block") || strings.Contains(text, "{{template") {
+				if (strings.Contains(text, "{{define") || strings.Contains(text, "{{block") || strings.Contains(text, "{{template")) && !strings.Contains(text, "{{define \"r\"}}") {
 					if len(ring) < 12 {
 						ring = append(ring, struct {
 							l    int
